@@ -281,10 +281,18 @@ func NewMessageDef(name, msgType string, parts []MessagePart) *MessageDef {
 
 		switch pType := part.(type) {
 		case messagePartWithFields:
+			// RequiredFields resolves requiredness through nested components: a required field of
+			// an optional component nested in this one is not required for the message.
+			requiredInPart := make(map[*FieldDef]bool)
+			if pType.Required() {
+				for _, f := range pType.RequiredFields() {
+					requiredInPart[f] = true
+				}
+			}
 			for _, f := range pType.Fields() {
 				// Field if required in component is required in message only if
 				// component is required.
-				processField(f, pType.Required())
+				processField(f, requiredInPart[f])
 			}
 
 		case *FieldDef:
